@@ -1,30 +1,39 @@
-(* Reviewed copy of numeric_utils::calculate_shifts (primitiv/core/numeric_utils.h), uint64
-   arithmetic over N with every wrap explicit.  No proofs here (the executable model must keep
-   building when a proof breaks).  The tie to the current source is Pool/Shifts.v:gen_matches,
-   which compares this definition with the regenerated Gen/ShiftsGen.v. *)
+(* Reviewed copy of numeric_utils::calculate_shifts (primitiv/core/numeric_utils.h) in the
+   syntax of ShiftsLang.v, and the executable function the pool model uses.  No proofs here
+   (the executable model must keep building when a proof breaks).  The tie to the current
+   source is Pool/Shifts.v:gen_matches, which compares `reviewed_prog` with the program
+   regenerated from /repo on every run (Gen/ShiftsGen.v). *)
 From Coq Require Import NArith.
+From PV Require Export Pool.ShiftsLang.
 Local Open Scope N_scope.
 
-Definition W64 : N := 18446744073709551616.   (* 2^64 *)
+Definition X := Var O.        (* std::uint64_t x  (parameter) *)
+Definition B := Var 1%nat.    (* std::uint64_t b *)
+Definition sb (e : expr) := Let 1%nat e.
+Definition smear_step (k : N) := sb (Bin OLor B (Bin OShr B (Lit k))).            (* b |= b >> k; *)
+Definition count_step (k m : N) :=                                                 (* b = (b & m) + ((b >> k) & m); *)
+  sb (Bin OAdd (Bin OLand B (Lit m)) (Bin OLand (Bin OShr B (Lit k)) (Lit m))).
 
-Definition calculate_shifts (x : N) : N :=
-  if x =? 0 then 64 else                                    (* if (x == 0) return 64; *)
+Definition reviewed_prog : stmt :=
+  IfRet (Bin OEq X (Lit 0)) (Lit 64) (                      (* if (x == 0) return 64; *)
   (* Flips all bits at the right of leftmost-1 to 1. *)
-  let b := N.lor x (N.shiftr x 32) in                       (* b = x | (x >> 32) *)
-  let b := N.lor b (N.shiftr b 16) in                       (* b |= b >> 16 *)
-  let b := N.lor b (N.shiftr b 8) in
-  let b := N.lor b (N.shiftr b 4) in
-  let b := N.lor b (N.shiftr b 2) in
-  let b := N.lor b (N.shiftr b 1) in
+  sb (Bin OLor X (Bin OShr X (Lit 32))) (                   (* std::uint64_t b = x | (x >> 32); *)
+  smear_step 16 (
+  smear_step 8 (
+  smear_step 4 (
+  smear_step 2 (
+  smear_step 1 (
   (* Counts the number of 1. *)
-  let b := (N.land b 0x5555555555555555 + N.land (N.shiftr b 1) 0x5555555555555555) mod W64 in
-  let b := (N.land b 0x3333333333333333 + N.land (N.shiftr b 2) 0x3333333333333333) mod W64 in
-  let b := (N.land b 0x0f0f0f0f0f0f0f0f + N.land (N.shiftr b 4) 0x0f0f0f0f0f0f0f0f) mod W64 in
-  let b := (N.land b 0x00ff00ff00ff00ff + N.land (N.shiftr b 8) 0x00ff00ff00ff00ff) mod W64 in
-  let b := (N.land b 0x0000ffff0000ffff + N.land (N.shiftr b 16) 0x0000ffff0000ffff) mod W64 in
-  let b := (N.land b 0x00000000ffffffff + N.land (N.shiftr b 32) 0x00000000ffffffff) mod W64 in
-  (* return b - (1ull << (b - 1) == x); *)
-  (b + W64 - (if (N.shiftl 1 ((b + W64 - 1) mod W64)) mod W64 =? x then 1 else 0)) mod W64.
+  count_step 1 0x5555555555555555 (
+  count_step 2 0x3333333333333333 (
+  count_step 4 0x0f0f0f0f0f0f0f0f (
+  count_step 8 0x00ff00ff00ff00ff (
+  count_step 16 0x0000ffff0000ffff (
+  count_step 32 0x00000000ffffffff (
+  (* Adjusts the result.   return b - (1ull << (b - 1) == x); *)
+  Ret (Bin OSub B (Bin OEq (Bin OShl (Lit 1) (Bin OSub B (Lit 1))) X))))))))))))))).
+
+Definition calculate_shifts (x : N) : N := run reviewed_prog x.
 
 (* the documented result: ceil(log2 x) for x > 0 *)
 Definition ceil_log2 (x : N) : N := if 2 ^ N.log2 x =? x then N.log2 x else N.log2 x + 1.
